@@ -94,10 +94,10 @@ type Sched struct {
 	Revs int    // revocations while G1 is parked
 }
 
-// Reload: what ca.Reload does. Authority A (cache duration D1, renew period 1 s) runs on a bbolt
+// Reload: what ca.Reload does. Authority A (cache duration D1, renew period 300 ms) runs on a bbolt
 // file; authority B (cache duration D2) is built with A's db handle and A's keys, then
-// A.CloseForReload(). After more than two old renew periods every list stored since the reload
-// must carry D2 and the stored numbers must strictly increase: no generator of A is left.
+// A.CloseForReload(). While B stores 8 lists, at most two stragglers of A may appear (see runReload);
+// a generator of A that is still ticking stores many more.
 type Reload struct {
 	D1, D2 int  // seconds
 	GOR    bool // generate-on-revoke on B, with one revocation after the reload
@@ -119,8 +119,18 @@ type env struct {
 	ca *fixture.CA
 }
 
+// minCache: cache durations below one hour are not used. The authority's own periodic generator
+// ticks every RenewPeriod (here = the cache duration, the largest legal value); with >= 1 h it cannot
+// fire inside a history however slow the machine is, so every generation of a history is one the
+// harness drives explicitly (and the model sees). Ticks are exercised as forced generations.
+const minCache = 3600
+
 func newEnv(gor bool, cache int, hooks *ss.Hooks) *env {
-	o := fixture.Opts{CRL: &config.CRLConfig{Enabled: true, GenerateOnRevoke: gor, CacheDuration: &provisioner.Duration{Duration: time.Duration(cache) * time.Second}},
+	if cache < minCache {
+		cache = minCache
+	}
+	d := &provisioner.Duration{Duration: time.Duration(cache) * time.Second}
+	o := fixture.Opts{CRL: &config.CRLConfig{Enabled: true, GenerateOnRevoke: gor, CacheDuration: d, RenewPeriod: d},
 		WrapDB: ss.Wrap(hooks)}
 	return &env{ca: must(fixture.New(o))}
 }
@@ -271,6 +281,9 @@ func runHist(h *Hist) (string, string) {
 		}
 		return ":" + strconv.Itoa(f)
 	}
+	if h.Cache < minCache {
+		h.Cache = minCache // also for replayed cases generated before minCache existed
+	}
 	e := newEnv(h.GOR, h.Cache, hooks)
 	defer func() { e.ca.Close() }()
 	certs := make([]*x509.Certificate, len(h.Certs))
@@ -420,7 +433,7 @@ func runRace(rc *Race) (string, string, string) {
 		}
 		return nil
 	}}
-	e := newEnv(rc.GOR, 600, hooks)
+	e := newEnv(rc.GOR, minCache, hooks)
 	defer e.ca.Close()
 	certs := make([]*x509.Certificate, rc.Revokers)
 	for i := range certs {
@@ -494,7 +507,7 @@ func runRace(rc *Race) (string, string, string) {
 					note("served-number-went-back")
 					return
 				}
-				if l.next-l.this != 600 {
+				if l.next-l.this != minCache {
 					note("interval")
 				}
 				prev = l.num
@@ -580,7 +593,7 @@ func runSched(sc *Sched) (string, string, string) {
 			return nil
 		},
 	}
-	e := newEnv(true, 600, hooks)
+	e := newEnv(true, minCache, hooks)
 	defer e.ca.Close()
 	var problems []string
 	var serials []string
@@ -602,7 +615,7 @@ func runSched(sc *Sched) (string, string, string) {
 	case err := <-g1:
 		g1 <- err
 		problems = append(problems, "generation-never-reached-"+sc.Park)
-	case <-time.After(5 * time.Second):
+	case <-time.After(3 * time.Minute):
 		problems = append(problems, "generation-stuck")
 	}
 	released := false
@@ -630,7 +643,7 @@ func runSched(sc *Sched) (string, string, string) {
 		if err != nil {
 			problems = append(problems, "generation-failed")
 		}
-	case <-time.After(5 * time.Second):
+	case <-time.After(3 * time.Minute):
 		problems = append(problems, "generation-stuck")
 	}
 	// every revocation above was acknowledged before this fetch: all must be in the served list,
@@ -670,11 +683,27 @@ func runSched(sc *Sched) (string, string, string) {
 	return in, "ok", "ok"
 }
 
+// reloadPeriod: the renew period of both authorities of the reload stage (their tickers are the
+// subject of that stage; everywhere else the tickers cannot fire, see minCache).
+const reloadPeriod = 300 * time.Millisecond
+
 func crlCfg(cache int, gor bool) *config.CRLConfig {
 	return &config.CRLConfig{Enabled: true, GenerateOnRevoke: gor, CacheDuration: &provisioner.Duration{Duration: time.Duration(cache) * time.Second},
-		RenewPeriod: &provisioner.Duration{Duration: time.Second}}
+		RenewPeriod: &provisioner.Duration{Duration: reloadPeriod}}
 }
 
+// runReload. The verdict depends only on *events* (lists seen at StoreCRL), never on something not
+// having happened within a time limit: a slow machine can make the case inconclusive (reported as
+// ok), not red.
+//
+//  1. A runs until it has stored its start-up list and at least one tick (wait-until, generous deadline).
+//  2. B is built on A's db handle, then A.CloseForReload().  The unchanged code may still deliver the
+//     generation that was in flight and at most one tick that was already queued in the ticker
+//     channel (Go's select may pick it before the stop signal): at most two lists of A after this point.
+//  3. Wait until B has stored 8 lists after the reload.  A generator that was not stopped keeps its own
+//     period and stores about as many; three or more lists with A's duration after the reload is a
+//     violation.  Among the lists after A's last one the numbers must strictly increase.
+//  4. A revocation on B (generate-on-revoke) must then be in the served list.
 func runReload(rl *Reload) (string, string, string) {
 	type st struct{ num, dur int64 }
 	var mu sync.Mutex
@@ -688,77 +717,95 @@ func runReload(rl *Reload) (string, string, string) {
 		}
 		return nil
 	}}
+	count := func(from int, dur int64) int {
+		mu.Lock()
+		defer mu.Unlock()
+		k := 0
+		for _, x := range stored[from:] {
+			if x.dur == dur {
+				k++
+			}
+		}
+		return k
+	}
+	waitUntil := func(cond func() bool) bool {
+		deadline := time.Now().Add(3 * time.Minute)
+		for !cond() {
+			if time.Now().After(deadline) {
+				return false
+			}
+			time.Sleep(20 * time.Millisecond)
+		}
+		return true
+	}
+	in := fmt.Sprintf("reload d1=%d d2=%d gor=%s", rl.D1, rl.D2, c.B(rl.GOR))
 	a := must(fixture.New(fixture.Opts{CRL: crlCfg(rl.D1, false), WrapDB: ss.Wrap(hooks)}))
 	defer os.RemoveAll(a.DBDir)
-	time.Sleep(1200 * time.Millisecond) // A's ticker is demonstrably running: at least one tick
+	if !waitUntil(func() bool { return count(0, int64(rl.D1)) >= 2 }) {
+		a.Auth.Shutdown()
+		return in, "ok", "ok" // inconclusive: A's ticker never ticked within the deadline
+	}
 	// ca.Reload: new authority with the same database handle and keys, then CloseForReload on the old one
 	b := must(fixture.New(fixture.Opts{CRL: crlCfg(rl.D2, rl.GOR), NoDB: true, From: a,
 		Extra: []authority.Option{authority.WithDatabase(a.Auth.GetDatabase())}}))
 	a.Auth.CloseForReload()
 	mu.Lock()
-	mark := len(stored) // lists stored before this point may legitimately be A's
+	mark := len(stored)
 	mu.Unlock()
-	eb := &env{ca: b}
+	waitUntil(func() bool { return count(mark, int64(rl.D2)) >= 8 || count(mark, int64(rl.D1)) >= 3 })
 	var problems []string
-	var serial string
-	if rl.GOR {
-		crt := eb.issue()
-		serial = crt.SerialNumber.String()
-		if eb.revokeToken(serial) != 200 {
-			problems = append(problems, "revocation-refused")
-		}
-	}
-	prev := int64(-1)
-	deadline := time.Now().Add(2400 * time.Millisecond)
-	for time.Now().Before(deadline) {
-		l := eb.fetch()
-		if l.bad != "" {
-			problems = append(problems, "served-list-"+l.bad)
-			break
-		}
-		if l.num < prev {
-			problems = append(problems, "served-number-went-back")
-			break
-		}
-		prev = l.num
-		time.Sleep(40 * time.Millisecond)
-	}
-	final := eb.fetch()
-	if final.next-final.this != int64(rl.D2) {
-		problems = append(problems, fmt.Sprintf("served-interval-%d-instead-of-%d", final.next-final.this, rl.D2))
-	}
-	if rl.GOR {
-		found := false
-		for _, en := range final.entries {
-			if strings.HasPrefix(en, c.X(serial)+":") {
-				found = true
-			}
-		}
-		if !found {
-			problems = append(problems, "acknowledged-revocation-missing-from-served-list")
-		}
-	}
 	mu.Lock()
 	after := append([]st{}, stored[mark:]...)
-	all := append([]st{}, stored...)
 	mu.Unlock()
-	for _, x := range after {
+	oldAfter, lastOld := 0, -1
+	for i, x := range after {
 		if x.dur != int64(rl.D2) {
-			problems = append(problems, fmt.Sprintf("list-stored-after-reload-with-old-interval-%d", x.dur))
-			break
+			oldAfter++
+			lastOld = i
 		}
 	}
-	for i := 1; i < len(all); i++ {
-		if all[i].num <= all[i-1].num {
+	if oldAfter >= 3 {
+		problems = append(problems, fmt.Sprintf("lists-stored-after-reload-with-old-interval-%d:%d-of-%d", rl.D1, oldAfter, len(after)))
+	}
+	// the list right after A's last one may have been computed concurrently with it (two mutexes)
+	for i := lastOld + 3; i < len(after); i++ {
+		if after[i].num <= after[i-1].num {
 			problems = append(problems, "stored-number-not-increasing")
 			break
 		}
 	}
-	if len(after) < 2 {
-		problems = append(problems, "new-generator-not-ticking")
+	if rl.GOR && oldAfter < 3 {
+		eb := &env{ca: b}
+		crt := eb.issue()
+		serial := crt.SerialNumber.String()
+		if eb.revokeToken(serial) != 200 {
+			problems = append(problems, "revocation-refused")
+		} else {
+			l := eb.fetch()
+			found := false
+			for _, en := range l.entries {
+				if strings.HasPrefix(en, c.X(serial)+":") {
+					found = true
+				}
+			}
+			mu.Lock()
+			lateOld := 0
+			for _, x := range stored[mark+len(after):] {
+				if x.dur != int64(rl.D2) {
+					lateOld++
+				}
+			}
+			mu.Unlock()
+			if l.bad != "" {
+				problems = append(problems, "served-list-"+l.bad)
+			} else if !found && lateOld == 0 {
+				problems = append(problems, "acknowledged-revocation-missing-from-served-list")
+			} else if lateOld > 0 && oldAfter+lateOld >= 3 {
+				problems = append(problems, fmt.Sprintf("lists-stored-after-reload-with-old-interval-%d", rl.D1))
+			}
+		}
 	}
 	b.Auth.Shutdown()
-	in := fmt.Sprintf("reload d1=%d d2=%d gor=%s", rl.D1, rl.D2, c.B(rl.GOR))
 	if len(problems) > 0 {
 		return in, "VIOLATION " + strings.Join(problems, ","), "ok"
 	}
@@ -776,16 +823,16 @@ func cornerHists() []*Hist {
 	// failing generations: each storage call of the critical section in turn, then a clean one; a revocation whose regeneration fails
 	failing := []Op{{"gen", 0, 2}, {"gen", 0, 0}, {"gen", 0, 3}, {"rev", 0, 4}, {"gen", 0, 4}, {"rev", 0, 0}, {"rev", 1, 3}, {"gen", 0, 0}, {"restart", 0, 0}, {"rev", 2, 2}, {"gen", 0, 0}}
 	return []*Hist{
-		{GOR: true, Cache: 600, Certs: all, Ops: ops2},
+		{GOR: true, Cache: 3600, Certs: all, Ops: ops2},
 		{GOR: false, Cache: 86400, Certs: all, Ops: ops2},
-		{GOR: true, Cache: 1, Certs: all[:2], Ops: []Op{{"gen", 0, 0}, {"gen", 0, 0}, {"restart", 0, 0}, {"rev", 0, 0}, {"rev", 1, 0}, {"rev", 1, 0}}},
-		{GOR: true, Cache: 600, Certs: all[:3], Ops: failing},
-		{GOR: false, Cache: 600, Certs: all[:3], Ops: failing},
+		{GOR: true, Cache: 604800, Certs: all[:2], Ops: []Op{{"gen", 0, 0}, {"gen", 0, 0}, {"restart", 0, 0}, {"rev", 0, 0}, {"rev", 1, 0}, {"rev", 1, 0}}},
+		{GOR: true, Cache: 7200, Certs: all[:3], Ops: failing},
+		{GOR: false, Cache: 3600, Certs: all[:3], Ops: failing},
 	}
 }
 
 func genHist(r *c.Rng) *Hist {
-	h := &Hist{GOR: !r.Chance(1, 3), Cache: c.Pick(r, []int{1, 60, 600, 3600, 86400})}
+	h := &Hist{GOR: !r.Chance(1, 3), Cache: c.Pick(r, []int{3600, 7200, 43200, 86400, 604800})}
 	nc := 1 + r.Intn(6)
 	for i := 0; i < nc; i++ {
 		switch r.Intn(5) {
